@@ -188,9 +188,14 @@ def build_and_run(case, v: int, seed: int):
             elif cls == "str_badb64": epk[sub] = "!!! not base64 !!!"
             elif cls == "str_shortb64": epk[sub] = "AAAA"
             elif cls == "int": epk[sub] = 7
-            elif cls == "list": epk[sub] = ["P-256"]
+            elif cls == "list": epk[sub] = ["P-256"] if sub not in ("use", "key_ops") else ["sign"]
             elif cls == "null": epk[sub] = None
-            elif cls == "obj": epk[sub] = {"a": 1}
+            elif cls == "obj": epk[sub] = {"a": 1} if v % 2 else {}
+            elif cls == "list_nested": epk[sub] = [["sig"]] if v % 2 else [[]]
+            elif cls == "list_obj": epk[sub] = [{}] if v % 2 else [{"a": [1]}, "sign"]
+            elif cls == "bool": epk[sub] = bool(v % 2)
+            elif cls == "float": epk[sub] = 1.5
+            elif cls == "deep": epk[sub] = RawJson(DEEP)
             tgt["epk"] = epk
         elif kind == "hdr_type":
             hdr_raw = dump(pick(jt_values(cls, "hdr", rnd)))
